@@ -3912,6 +3912,35 @@ async fn run_gathering_loop(
     }
 }
 
+/// SDES-SRTP keys come from the `a=crypto` lines of *both* descriptions, but
+/// `start_direct()` reports `Connected` from inside `set_remote_description()`:
+/// on the answerer before `set_local_description(answer)` has run, on the
+/// offerer before the answer has been stored. Starting the transport at that
+/// moment fails with "Missing crypto attributes for SDES", so wait until both
+/// descriptions are in place. Returns `false` when the PeerConnection is gone.
+async fn wait_for_sdes_descriptions(inner_weak: &std::sync::Weak<PeerConnectionInner>) -> bool {
+    loop {
+        let Some(inner) = inner_weak.upgrade() else {
+            return false;
+        };
+        if inner.config.transport_mode != TransportMode::Srtp
+            || (inner.local_description.lock().is_some()
+                && inner.remote_description.lock().is_some())
+        {
+            return true;
+        }
+        let mut signaling_rx = inner.signaling_state.subscribe();
+        drop(inner);
+        // The descriptions are stored just after the signaling state changes,
+        // so re-check shortly after a change as well.
+        let _ = tokio::time::timeout(
+            std::time::Duration::from_millis(10),
+            signaling_rx.changed(),
+        )
+        .await;
+    }
+}
+
 /// Simplified loop for RTP mode. Watches ICE state transitions from
 /// setup_direct_rtp / complete_direct_rtp and triggers start_dtls
 /// when the connection becomes available. No ICE gathering or STUN.
@@ -3940,6 +3969,9 @@ async fn run_rtp_direct_loop(
         match ice_state {
             crate::transports::ice::IceTransportState::Connected
             | crate::transports::ice::IceTransportState::Completed => {
+                if !wait_for_sdes_descriptions(&inner_weak).await {
+                    return;
+                }
                 if !handle_connected_state_no_dtls(&inner_weak, &mut ice_state_rx).await {
                     return;
                 }
